@@ -112,7 +112,7 @@ CHECKS = {
              "aggregations and the overhang filter against the models. Property oracle on the real code for EVERY module family incl. LinSolve, Inverse, SystemOfEquations, StaticCondensation, EigenSolve, "
              "MathGeneral, EinSum, assembly with dense and dyadic seeds: Re<g,v> vs exact Jacobians / Richardson differences, partial seeds, class-preserving directions.",
         ref="§5 C01", technique="Lean 4 proof per module model (adjoint identities over fields, HasDerivAt over R) + correspondence + complete-Jacobian / Richardson oracle on all module families",
-        note=NOTE_COMMON + "Borrowed theorems (audited with this check): C07 adjoints of LinSolve/Inverse/SystemOfEquations/StaticCondensation in linearised-constraint form, C11 per-mode eigen adjoints (partial), C01Assembly (assembly dense/dyadic seeds, element/nodal operators), C01Generic (EinSum incl. trace/ones/real-operand rule, MathGeneral under the pointwise-derivative contract for sympy), C14 overhang_sens_is_backprop, C09/C16/C12/C02 as listed. PARTIAL: the implicit-function step for the implicit modules and sparse eigenvector sensitivities are decided by the oracle (bounded, seeded); AutoMod (jax) is not installed. OPEN FINDINGS: sparse EigenSolve with complex Hermitian matrices; EinSum with size-1 broadcast operands."),
+        note=NOTE_COMMON + "Borrowed theorems (audited with this check): C07 adjoints of LinSolve/Inverse/SystemOfEquations/StaticCondensation (linearised-constraint form + C07Deriv derivative form), C11 eigen adjoints (dense and sparse, linearised + derivative form), C01Assembly (assembly dense/dyadic seeds, element/nodal operators), C01Generic (EinSum incl. trace/ones/real-operand rule, MathGeneral under the pointwise-derivative contract for sympy), C14 overhang_sens_is_backprop, C09/C16/C12/C02 as listed. The implicit-function step is a theorem for LinSolve/Inverse/SystemOfEquations/StaticCondensation (Props/C07Deriv: derivative along every differentiable curve, R and C) and, given a differentiable curve of eigenpairs, for EigenSolve dense and sparse (Props/C11). AutoMod (jax) is not installed. OPEN FINDINGS: sparse EigenSolve sensitivities for complex Hermitian and for real non-symmetric matrices; EinSum with size-1 broadcast operands."),
     "C10": dict(
         text="Lean theorems over any ordered field: concat/split round trip, bound/move expansion (scalar, per-signal, per-variable), write-back to the right signals; both MMA versions reproduce value and gradient at the current design; "
              "asymptotes strictly enclose [alfa, beta] within bounds and move limit; one Newton pass of subsolv keeps x strictly inside (alfa, beta) and all multipliers/slacks positive (step-length rule + halving), hence every iterate is in bounds "
@@ -131,13 +131,16 @@ CHECKS = {
              "adjoint theorems in linearised-constraint form for LinSolve (+ exact finite identity), Inverse, SystemOfEquations (both seeds), StaticCondensation. Exact Q(i) model vs the real modules (outputs and sensitivities) over matrix classes, "
              "storage formats, solver overrides, all partitions of small index sets; defining-equation oracle on every real output.",
         ref="§5 C07", technique="Lean 4 proof (matrix algebra under the inner-solver contract) + exact-model correspondence + defining-equation oracle",
-        note=NOTE_COMMON + "Class detection, auto_determine_solver, LDAWrapper and the initial guess are abstracted into the Solver contract here (they are C05/C06); the implicit-function step from the linearised identities to 'is the derivative' is not formalised."),
+        note=NOTE_COMMON + "Class detection, auto_determine_solver, LDAWrapper and the initial guess are abstracted into the Solver contract here (they are C05/C06); Props/C07Deriv.lean adds the implicit-function step: along every differentiable curve of inputs with A(t) non-singular the outputs are differentiable and the coded sensitivities pair to the derivative (R and C, real-dtype inputs perturbed in real directions)."),
     "C11": dict(
         text="Lean theorems under the eigen-solver contract (the library returns pairs with A q = lambda B q): scaling and permuting keep eigenpairs, q^T B q = 1 after normalisation, output order = sorting function's order, mean entry >= 0 "
-             "(ordered field), dense path complete, the operator handed to ARPACK is (A - sigma B)^-1 with the coded defaults; Lee's bordered adjoint identity per mode (partial) and the sparse eigenvalue formula (symmetric pencils). "
-             "The harness captures the RAW library eigenpairs (wrapping scipy eigh/eig/eigsh/eigs), feeds them to the model and compares the module's outputs and sensitivities; residual / normalisation / order / sign / closest-to-sigma oracles.",
-        ref="§5 C11", technique="Lean 4 proof of the authored post-processing under an explicit eigen-solver contract + correspondence on captured raw eigenpairs + residual oracle",
-        note=NOTE_COMMON + "PARTIAL by nature: that LAPACK/ARPACK return genuine eigenpairs closest to the shift is an external contract checked numerically; eig_dense_adjoint_partial is per mode without the implicit-function step; sparse eigenvector sensitivities are not compared with a model."),
+             "(ordered field), dense path complete, the operator handed to ARPACK is (A - sigma B)^-1 with the coded defaults. Sensitivities: Lee's bordered adjoint per mode and for the whole module (dense path, general matrices) and the coded sparse "
+             "eigenvalue / eigenvector sensitivities (symmetric pencils; independent of WHICH solution the singular solve returns) equal the pairing with the tangent of the eigenpair (linearised form, any field) and, over R and C, the derivative "
+             "along every differentiable curve of eigenpairs (eig_dense_sens_is_derivative, eig_sparse_sens_is_derivative); tangent exists and is unique at a simple eigenvalue. "
+             "The harness captures the RAW library eigenpairs (wrapping scipy eigh/eig/eigsh/eigs), feeds them to the model and compares the module's outputs and sensitivities (dense and sparse, incl. a model solver that returns a different kernel component); "
+             "residual / normalisation / order / sign / closest-to-sigma / adjoint-identity oracles.",
+        ref="§5 C11", technique="Lean 4 proof of the authored post-processing and sensitivities under an explicit eigen-solver contract + correspondence on captured raw eigenpairs + residual and adjoint-identity oracles",
+        note=NOTE_COMMON + "PARTIAL by nature: that LAPACK/ARPACK return genuine eigenpairs closest to the shift is an external contract checked numerically; that a simple eigenvalue has a differentiable curve of eigenpairs (implicit-function theorem proper) is a hypothesis of the ..._is_derivative theorems (eig_tangent_exists_unique pins the derivative down). Sparse sensitivities are proved for transpose-symmetric pencils only: for complex Hermitian and real non-symmetric sparse matrices the code is wrong (OPEN FINDINGS under C01)."),
     "C19": dict(
         text="Lean theorems on a model of finite_difference over the C02 program model (any scalar incl. complex pairs): every entry not written by the block is restored exactly, no sensitivity is left on any examined signal, "
              "each reported pair comes from one perturbation, the analytical value is the back-propagated sensitivity entry for the seed used, calls only for non-skipped entries with the configured step, pre/slice split sound; "
